@@ -279,6 +279,30 @@ func main() {
 				}
 				check(fmt.Sprintf("random%v", sizes), &chunked{data: append([]byte(nil), data...), sizes: sizes, withEOF: j%2 == 0, empties: j % 3})
 			}
+			// the same stream ENDING IN THE SAME FAILURE after k bytes, delivered differently (the error in a Read of its own or
+			// together with the last bytes; everything at once, one byte or seven bytes per Read): statements, EXPLAIN text and
+			// error must not depend on the delivery either
+			for pi, k := range points {
+				if pi%7 != 0 && k != len(data) && k > 2 {
+					continue
+				}
+				boom := errors.New("boom")
+				ref := run(&failing{data: data, k: k, err: boom})
+				for vi, v := range []struct {
+					wd    bool
+					chunk int
+				}{{true, 0}, {false, 1}, {true, 1}, {false, 7}, {true, 7}} {
+					if len(data) > 20000 && v.chunk == 1 && pi%21 != 0 {
+						continue
+					}
+					runs++
+					got := run(&failing{data: data, k: k, err: boom, withData: v.wd, chunk: v.chunk})
+					if !same(ref, got) {
+						note(fmt.Sprintf("stream failing after %d bytes: delivery %d (error with data=%v, %d bytes per Read) gives n=%d err=%q, the plain delivery n=%d err=%q (explain-equal=%v)",
+							k, vi, v.wd, v.chunk, got.n, got.err, ref.n, ref.err, got.explain == ref.explain))
+					}
+				}
+			}
 		case "fail":
 			kinds := []error{errors.New("boom"), io.ErrUnexpectedEOF, timeoutErr{}, fmt.Errorf("connection reset by peer: %w", io.EOF), &net.OpError{Op: "read", Net: "tcp", Err: errors.New("use of closed network connection")}, os.ErrDeadlineExceeded, context.Canceled}
 			for _, k := range points {
